@@ -66,6 +66,7 @@ type ChanV struct{ C *ChanObj }
 type ChanObj struct {
 	capacity int
 	queue    []Value
+	closed   bool
 }
 
 // range iterator state for strings / maps
